@@ -12,6 +12,7 @@ package main
 
 import (
 	"fmt"
+	"go/constant"
 	"go/token"
 	"go/types"
 	"sort"
@@ -27,6 +28,7 @@ type c05Path struct {
 	Edges  map[Edge]bool
 	End    ssa.Instruction
 	st     *c05State
+	Conds  map[c05CondKey]bool // conditions decided through short-circuit phis
 }
 
 type c05MemVal struct {
@@ -191,7 +193,36 @@ func (s *c05State) nonNil(v ssa.Value) bool {
 	if f, ok := s.facts[c05EqKey(s.symOf(r), "const:nil")]; ok && !f {
 		return true
 	}
+	// the result of an in-module helper that hands back its own argument (`return vr.fail(err)`)
+	if call, ok := strip(r).(*ssa.Call); ok {
+		if i := c05ReturnsOwnParam(StaticCallee(call)); i >= 0 && i < len(call.Call.Args) {
+			return s.nonNil(call.Call.Args[i])
+		}
+	}
 	return false
+}
+
+// c05ReturnsOwnParam: every return of single-result in-module function h yields its parameter #i; -1 otherwise.
+func c05ReturnsOwnParam(h *ssa.Function) int {
+	if h == nil || !inModule(h) || len(h.Blocks) == 0 || h.Signature.Results().Len() != 1 || h.Recover != nil {
+		return -1
+	}
+	idx := -1
+	for _, r := range Returns(h) {
+		p := c05ParamOf(r.Results[0])
+		if p == nil || p.Parent() != h {
+			return -1
+		}
+		for i, q := range h.Params {
+			if q == p {
+				if idx >= 0 && idx != i {
+					return -1
+				}
+				idx = i
+			}
+		}
+	}
+	return idx
 }
 
 func c05AllocEscapes(a *ssa.Alloc) bool {
@@ -287,15 +318,21 @@ func c05EnumPaths(fn *ssa.Function, target ssa.Instruction) (paths []*c05Path, o
 	onPath := map[*ssa.BasicBlock]bool{}
 	var blocks []*ssa.BasicBlock
 	edges := []Edge{}
+	conds := map[c05CondKey]int{}
 	var walk func(b, pred *ssa.BasicBlock, st *c05State)
 	finish := func(end ssa.Instruction, st *c05State) {
 		if len(paths) >= c05PathBudget {
 			ok = false
 			return
 		}
-		p := &c05Path{Blocks: append([]*ssa.BasicBlock{}, blocks...), Edges: map[Edge]bool{}, End: end, st: st}
+		p := &c05Path{Blocks: append([]*ssa.BasicBlock{}, blocks...), Edges: map[Edge]bool{}, End: end, st: st, Conds: map[c05CondKey]bool{}}
 		for _, e := range edges {
 			p.Edges[e] = true
+		}
+		for k, n := range conds {
+			if n > 0 {
+				p.Conds[k] = true
+			}
 		}
 		paths = append(paths, p)
 	}
@@ -345,7 +382,9 @@ func c05EnumPaths(fn *ssa.Function, target ssa.Instruction) (paths []*c05Path, o
 			case *ssa.Panic:
 				return
 			case *ssa.If:
-				key, pol := st.condKey(u.Cond)
+				// the condition as it is on this path: a phi of `&&` / `||` denotes the operand selected by the edge taken
+				rc := st.resolve(u.Cond)
+				key, pol := st.condKey(rc)
 				for i, succ := range b.Succs {
 					want := pol
 					if i == 1 {
@@ -355,6 +394,10 @@ func c05EnumPaths(fn *ssa.Function, target ssa.Instruction) (paths []*c05Path, o
 						if i == 1 {
 							continue
 						}
+					} else if k, isK := rc.(*ssa.Const); isK && k.Value != nil && k.Value.Kind() == constant.Bool {
+						if constant.BoolVal(k.Value) != (i == 0) {
+							continue // decided by the constant operand of the short-circuit
+						}
 					} else if have, known := st.facts[key]; known && have != want {
 						continue // contradicts an earlier branch on this path
 					}
@@ -363,7 +406,17 @@ func c05EnumPaths(fn *ssa.Function, target ssa.Instruction) (paths []*c05Path, o
 						ns.facts[key] = want
 					}
 					edges = append(edges, Edge{b, succ})
+					var ck c05CondKey
+					if rc != u.Cond {
+						// the outcome of the underlying condition, so that labels attached to its own If edges apply
+						cv, cp := c05StripNot(rc)
+						ck = c05CondKey{cv, cp == (i == 0)}
+						conds[ck]++
+					}
 					walk(succ, b, ns)
+					if ck.v != nil {
+						conds[ck]--
+					}
 					edges = edges[:len(edges)-1]
 				}
 				return
@@ -387,8 +440,113 @@ func (p *c05Path) took(es []Edge) bool {
 		if p.Edges[e] {
 			return true
 		}
+		if k, isPseudo := c05PseudoOf[e.To]; isPseudo {
+			if p.Conds[k] {
+				return true
+			}
+			continue
+		}
+		// the same condition decided through a short-circuit phi elsewhere on the path
+		if e.From == nil {
+			continue
+		}
+		if n := len(e.From.Instrs); n > 0 && len(p.Conds) > 0 {
+			if ifi, ok := e.From.Instrs[n-1].(*ssa.If); ok && len(e.From.Succs) == 2 && e.From.Succs[0] != e.From.Succs[1] {
+				cv, cp := c05StripNot(ifi.Cond)
+				if p.Conds[c05CondKey{cv, cp == (e.To == e.From.Succs[0])}] {
+					return true
+				}
+			}
+		}
 	}
 	return false
+}
+
+// c05CondSite: a place where a boolean condition is decided: an If (T and F
+// are its edges, swapped under negation), or an operand of a short-circuit
+// phi (`a && b`), for which T and F are pseudo-edges that no CFG walk ever
+// takes but that the path interpreter recognises (c05Path.took) when the phi
+// selects that operand and the branch on the phi decides it.
+type c05CondSite struct {
+	Cond ssa.Value
+	T, F Edge
+}
+
+var c05Pseudo = map[c05CondKey]*ssa.BasicBlock{}
+var c05PseudoOf = map[*ssa.BasicBlock]c05CondKey{}
+
+func c05PseudoEdge(v ssa.Value, truth bool) Edge {
+	k := c05CondKey{v, truth}
+	b := c05Pseudo[k]
+	if b == nil {
+		b = &ssa.BasicBlock{Comment: "pseudo"}
+		c05Pseudo[k] = b
+		c05PseudoOf[b] = k
+	}
+	in, _ := v.(ssa.Instruction)
+	var from *ssa.BasicBlock
+	if in != nil {
+		from = in.Block()
+	}
+	return Edge{from, b}
+}
+
+func c05CondSites(fn *ssa.Function, pseudo bool) []c05CondSite {
+	var out []c05CondSite
+	direct := map[ssa.Value]bool{}
+	for _, i := range Ifs(fn) {
+		cond, t, f := ifEdges(i)
+		direct[cond] = true
+		out = append(out, c05CondSite{cond, t, f})
+	}
+	if !pseudo {
+		return out
+	}
+	seen := map[ssa.Value]bool{}
+	AllInstrs(fn, func(in ssa.Instruction) {
+		phi, ok := in.(*ssa.Phi)
+		if !ok {
+			return
+		}
+		if b, isB := phi.Type().Underlying().(*types.Basic); !isB || b.Info()&types.IsBoolean == 0 {
+			return
+		}
+		for _, e := range phi.Edges {
+			cv, pol := c05StripNot(e)
+			switch cv.(type) {
+			case *ssa.Const, *ssa.Phi:
+				continue
+			}
+			if direct[cv] || seen[cv] {
+				continue
+			}
+			if _, isInstr := cv.(ssa.Instruction); !isInstr {
+				continue
+			}
+			seen[cv] = true
+			_ = pol // the site's condition is the stripped value: T is the pseudo-edge on which cv holds
+			out = append(out, c05CondSite{cv, c05PseudoEdge(cv, true), c05PseudoEdge(cv, false)})
+		}
+	})
+	return out
+}
+
+// c05CondKey: condition value v evaluated to `truth` on the path.
+type c05CondKey struct {
+	v     ssa.Value
+	truth bool
+}
+
+// c05StripNot removes negations: the underlying condition and whether the given value has its polarity.
+func c05StripNot(v ssa.Value) (ssa.Value, bool) {
+	pol := true
+	for {
+		u, ok := v.(*ssa.UnOp)
+		if !ok || u.Op != token.NOT {
+			return v, pol
+		}
+		v, pol = u.X, !pol
+	}
 }
 
 func (p *c05Path) String() string {
@@ -415,8 +573,14 @@ func c05LoadPath(v ssa.Value) string {
 // value satisfying isX and a value satisfying isK is known to hold (rel is
 // one of "==", "!=", "<=0" (x not positive, k must be 0/1 const handled by caller)).
 func c05EqEdges(fn *ssa.Function, isA, isB func(v ssa.Value) bool) (eq, ne []Edge) {
-	for _, i := range Ifs(fn) {
-		cond, t, f := ifEdges(i)
+	return c05EqEdgesP(fn, isA, isB, false)
+}
+
+// c05EqEdgesP: with pseudo, operands of short-circuit phis are labelled too
+// (pseudo-edges, meaningful to the path interpreter only: c05Path.took).
+func c05EqEdgesP(fn *ssa.Function, isA, isB func(v ssa.Value) bool, pseudo bool) (eq, ne []Edge) {
+	for _, cs := range c05CondSites(fn, pseudo) {
+		cond, t, f := cs.Cond, cs.T, cs.F
 		switch c := cond.(type) {
 		case *ssa.BinOp:
 			if c.Op != token.EQL && c.Op != token.NEQ {
@@ -487,8 +651,12 @@ func c05BoolHelperCmp(call *ssa.Call) (x, y ssa.Value, negated, ok bool) {
 // c05NotPositiveEdges: edges on which integer x (isX) is known <= 0, and
 // edges on which it is known > 0.
 func c05NotPositiveEdges(fn *ssa.Function, isX func(v ssa.Value) bool) (le0, gt0 []Edge) {
-	for _, i := range Ifs(fn) {
-		cond, t, f := ifEdges(i)
+	return c05NotPositiveEdgesP(fn, isX, false)
+}
+
+func c05NotPositiveEdgesP(fn *ssa.Function, isX func(v ssa.Value) bool, pseudo bool) (le0, gt0 []Edge) {
+	for _, cs := range c05CondSites(fn, pseudo) {
+		cond, t, f := cs.Cond, cs.T, cs.F
 		bo, ok := cond.(*ssa.BinOp)
 		if !ok {
 			continue
@@ -702,6 +870,69 @@ func c05FieldUses(fns []*ssa.Function, typeName, field string) []c05FieldUse {
 	return out
 }
 
+// c05FieldWrite: a write of Val into the field at instruction At (a Store, or
+// a call of a setter helper that does nothing to the field but that).
+type c05FieldWrite struct {
+	At  ssa.Instruction
+	Val ssa.Value
+}
+
+// c05Setter: h stores into <typeName>.field only its own parameter #val, and
+// only through its own parameter #own (`func (vr *T) fail(err error) error {
+// vr.err = err; return err }`).
+func c05Setter(h *ssa.Function, typeName, field string) (own, val int, ok bool) {
+	own, val = -1, -1
+	n := 0
+	for _, u := range c05FieldUses([]*ssa.Function{h}, typeName, field) {
+		st, isStore := u.Use.(*ssa.Store)
+		if !isStore || st.Addr != ssa.Value(u.Addr) {
+			continue
+		}
+		n++
+		o, isP := strip(u.Addr.X).(*ssa.Parameter)
+		v := c05ParamOf(st.Val)
+		if !isP || v == nil || v.Parent() != h || o.Parent() != h {
+			return -1, -1, false
+		}
+		for i, q := range h.Params {
+			if q == o {
+				if own >= 0 && own != i {
+					return -1, -1, false
+				}
+				own = i
+			}
+			if q == v {
+				if val >= 0 && val != i {
+					return -1, -1, false
+				}
+				val = i
+			}
+		}
+	}
+	return own, val, n > 0 && own >= 0 && val >= 0
+}
+
+// c05FieldWrites: the writes of fn into <typeName>.field: its own stores and
+// its calls of same-package setter helpers.
+func c05FieldWrites(fn *ssa.Function, typeName, field string) []c05FieldWrite {
+	var out []c05FieldWrite
+	for _, u := range c05FieldUses([]*ssa.Function{fn}, typeName, field) {
+		if st, isStore := u.Use.(*ssa.Store); isStore && st.Addr == ssa.Value(u.Addr) {
+			out = append(out, c05FieldWrite{st, st.Val})
+		}
+	}
+	for _, call := range Calls(fn, func(string) bool { return true }) {
+		h := c05Helper(call, fn)
+		if h == nil {
+			continue
+		}
+		if _, v, ok := c05Setter(h, typeName, field); ok && v < len(call.Common().Args) {
+			out = append(out, c05FieldWrite{call.(ssa.Instruction), call.Common().Args[v]})
+		}
+	}
+	return out
+}
+
 // c05NilEdgesOf: the edges on which the error result of call is nil.
 func c05NilEdgesOf(call ssa.CallInstruction) []Edge {
 	e := ErrOf(call)
@@ -784,6 +1015,9 @@ func c05DeferKeepsError(fn *ssa.Function) string {
 			if len(nilE) > 0 && MustPass(s, newCut().Edges(nilE...)) {
 				continue
 			}
+			if c05PreservesNonNil(s.Val, loads) {
+				continue // `err = finish(f, err)`: the helper hands a non-nil argument back (or another non-nil error)
+			}
 			return fmt.Sprintf("%s overwrites the error result with a possibly-nil value while it may be non-nil (a failed verification is reported as success)", FnName(g))
 		}
 		return ""
@@ -808,6 +1042,9 @@ func c05MaybeNilAtoms(fn *ssa.Function) []RetAtom {
 	for _, a := range RetAtoms(fn, idx) {
 		if ErrNilStatus(a.Val, 0) == NonNil {
 			continue
+		}
+		if z, isZero := a.Val.(zeroMarker); isZero && c05YieldReturnNonNil(fn, z.UnOp, a.Ret) {
+			continue // `return err` out of a range-over-func body, with err known non-nil there
 		}
 		if _, isConst := a.Val.(*ssa.Const); !isConst {
 			if _, isZero := a.Val.(zeroMarker); !isZero {
@@ -890,6 +1127,8 @@ type c05Env struct {
 	Fn     *ssa.Function
 	Call   ssa.CallInstruction // the call in Parent.Fn that enters Fn; nil at the root and for closures
 	Parent *c05Env
+	Iter   *c05Iter // Fn is the body of this range-over-func traversal of Parent.Fn
+	Wide   bool     // (root only) helpers of other in-module packages are entered too (set.AddTo-style generic helpers)
 }
 
 func c05Root(fn *ssa.Function) *c05Env { return &c05Env{Fn: fn} }
@@ -911,6 +1150,21 @@ func (e *c05Env) depth() int {
 	return n
 }
 
+// helper: the function a call of e.Fn enters: a same-package function, or (below a Wide root) any in-module one.
+func (e *c05Env) helper(call ssa.CallInstruction) *ssa.Function {
+	if h := c05Helper(call, e.Fn); h != nil {
+		return h
+	}
+	if !e.root().Wide {
+		return nil
+	}
+	g := StaticCallee(call)
+	if g == nil || g == e.Fn || len(g.Blocks) == 0 || !inModule(g) {
+		return nil
+	}
+	return g
+}
+
 // c05Helper: the same-package function (with a body) a call enters statically.
 func c05Helper(call ssa.CallInstruction, from *ssa.Function) *ssa.Function {
 	g := StaticCallee(call)
@@ -926,11 +1180,16 @@ func c05Helper(call ssa.CallInstruction, from *ssa.Function) *ssa.Function {
 // node in whose function it lives.
 func (e *c05Env) up(v ssa.Value) (ssa.Value, *c05Env) {
 	cur := e
-	for i := 0; i < 12; i++ {
+	for i := 0; i < 16; i++ {
 		// value identity through struct fields that merely carry a value: a load of x.F where x is a
 		// struct literal built in this function or, for a method on a freshly built carrier struct,
 		// in the caller (closure turned into a struct with methods)
 		if nv, nat, ok := c05FieldCarry(v, cur); ok {
+			v, cur = nv, nat
+			continue
+		}
+		// a variable captured from an enclosing function on the chain that is assigned exactly once there
+		if nv, nat, ok := c05CapturedValue(v, cur); ok {
 			v, cur = nv, nat
 			continue
 		}
@@ -950,6 +1209,21 @@ func (e *c05Env) up(v ssa.Value) (ssa.Value, *c05Env) {
 		}
 		if owner == nil {
 			return p, cur
+		}
+		// the element parameter of a range-over-func body fed by an in-module iterator: the value yielded
+		if owner.Iter != nil && owner.Iter.Src != nil && owner.Iter.Src.Site != nil {
+			idx := -1
+			for k, q := range owner.Fn.Params {
+				if q == p {
+					idx = k
+				}
+			}
+			args := owner.Iter.Src.Site.Common().Args
+			if idx < 0 || idx >= len(args) {
+				return p, owner
+			}
+			v, cur = args[idx], owner.Iter.Src.SiteAt
+			continue
 		}
 		if owner.Parent == nil || owner.Call == nil {
 			return p, owner
@@ -994,7 +1268,7 @@ func c05TreeEnvs(root *c05Env, maxDepth int) []*c05Env {
 		AllInstrs(e.Fn, func(in ssa.Instruction) {
 			switch x := in.(type) {
 			case ssa.CallInstruction:
-				if h := c05Helper(x, e.Fn); h != nil {
+				if h := e.helper(x); h != nil {
 					onChain := false
 					for a := e; a != nil; a = a.Parent {
 						if a.Fn == h {
@@ -1009,6 +1283,14 @@ func c05TreeEnvs(root *c05Env, maxDepth int) []*c05Env {
 				}
 			case *ssa.MakeClosure:
 				ch := &c05Env{Fn: x.Fn.(*ssa.Function), Parent: e}
+				if ch.Fn.Synthetic == c05YieldSynthetic {
+					// the body of a range-over-func statement: its parameters are the traversal's elements
+					for _, it := range c05ItersIn(e) {
+						if it.Y != nil && it.Y.Fn == ch.Fn {
+							ch = it.Y
+						}
+					}
+				}
 				out = append(out, ch)
 				rec(ch)
 			}
@@ -1052,7 +1334,7 @@ func c05PassCut2(e *c05Env, sp c05PassSpec) (*cut, map[ssa.Value]bool) {
 		if !ok || e.depth() >= 3 {
 			return
 		}
-		h := c05Helper(call, e.Fn)
+		h := e.helper(call)
 		if h == nil {
 			return
 		}
@@ -1156,6 +1438,15 @@ func c05SamePlace(a, b ssa.Value) bool {
 // element.
 func c05SliceLoop(fn *ssa.Function, isS func(v ssa.Value) bool) (loop *Loop, idx map[ssa.Value]bool, body Edge) {
 	for _, l := range Loops(fn) {
+		if lp, i, b := c05SliceLoopL(l, isS); lp != nil {
+			return lp, i, b
+		}
+	}
+	return nil, nil, Edge{}
+}
+
+func c05SliceLoopL(l *Loop, isS func(v ssa.Value) bool) (loop *Loop, idx map[ssa.Value]bool, body Edge) {
+	for once := true; once; once = false {
 		if r, i, b, _, ok := l.RangeIndex(); ok && isS(r) {
 			return l, map[ssa.Value]bool{i: true}, b
 		}
@@ -1201,6 +1492,64 @@ func c05SliceLoop(fn *ssa.Function, isS func(v ssa.Value) bool) (loop *Loop, idx
 		}
 		if okInit && okStep && l.Blocks[t.To] {
 			return l, map[ssa.Value]bool{phi: true}, t
+		}
+	}
+	// range-over-int (`for i := range len(s)`), which go/ssa lowers to a rotated loop: the guard `0 < len(s)` before the
+	// loop, the induction phi in the header (which is the body), and `i+1 < len(s)` at the bottom
+	h := l.Header
+	for _, in := range h.Instrs {
+		phi, isPhi := in.(*ssa.Phi)
+		if !isPhi {
+			break
+		}
+		if len(phi.Edges) != 2 {
+			continue
+		}
+		var inc *ssa.BinOp
+		var pre *ssa.BasicBlock
+		for k, ev := range phi.Edges {
+			if c, isK := constInt(ev); isK && c == 0 {
+				pre = h.Preds[k]
+			}
+			if b, isB := ev.(*ssa.BinOp); isB && b.Op == token.ADD && b.X == ssa.Value(phi) {
+				if c, isK := constInt(b.Y); isK && c == 1 {
+					inc = b
+				}
+			}
+		}
+		if inc == nil || pre == nil {
+			continue
+		}
+		check := func(b *ssa.BasicBlock, x ssa.Value) bool {
+			if len(b.Instrs) == 0 || len(b.Succs) != 2 || b.Succs[0] != h {
+				return false
+			}
+			ifi, ok := b.Instrs[len(b.Instrs)-1].(*ssa.If)
+			if !ok {
+				return false
+			}
+			bo, ok := ifi.Cond.(*ssa.BinOp)
+			if !ok || bo.Op != token.LSS {
+				return false
+			}
+			if x == nil {
+				if c, isK := constInt(bo.X); !isK || c != 0 {
+					return false
+				}
+			} else if bo.X != x {
+				return false
+			}
+			ln, ok := bo.Y.(*ssa.Call)
+			return ok && CalleeName(ln) == "builtin:len" && isS(ln.Call.Args[0])
+		}
+		latch := len(l.Backs) > 0
+		for _, bk := range l.Backs {
+			if !check(bk.From, inc) {
+				latch = false
+			}
+		}
+		if latch && check(pre, nil) {
+			return l, map[ssa.Value]bool{phi: true}, Edge{pre, h}
 		}
 	}
 	return nil, nil, Edge{}
@@ -1424,8 +1773,8 @@ func c05EmptyStrEdges(fn *ssa.Function, isX func(v ssa.Value) bool) (empty, nonE
 		call, ok := strip(v).(*ssa.Call)
 		return ok && CalleeName(call) == "builtin:len" && len(call.Call.Args) == 1 && isX(call.Call.Args[0])
 	}
-	for _, i := range Ifs(fn) {
-		cond, t, f := ifEdges(i)
+	for _, cs := range c05CondSites(fn, false) {
+		cond, t, f := cs.Cond, cs.T, cs.F
 		bo, ok := cond.(*ssa.BinOp)
 		if !ok {
 			continue
@@ -1577,7 +1926,7 @@ func c05EdgeFacts(e Edge) *c05Facts {
 // tests on the same path established (including through phi operands selected
 // by the edge taken).  visit, when non-nil, is called for every Return
 // reached (and the search continues); otherwise the search stops at `to`.
-func c05ReachF(fromB *ssa.BasicBlock, fromIdx int, fromPred *ssa.BasicBlock, to ssa.Instruction, ct *cut, init *c05Facts, visit func(r *ssa.Return, pred *ssa.BasicBlock)) bool {
+func c05ReachF(fromB *ssa.BasicBlock, fromIdx int, fromPred *ssa.BasicBlock, to ssa.Instruction, ct *cut, init *c05Facts, visit func(r *ssa.Return, pred *ssa.BasicBlock), condCut ...map[c05CondKey]bool) bool {
 	type key struct {
 		b, pred *ssa.BasicBlock
 		sig     string
@@ -1636,6 +1985,13 @@ func c05ReachF(fromB *ssa.BasicBlock, fromIdx int, fromPred *ssa.BasicBlock, to 
 					if k, isK := res.(*ssa.Const); isK && k.Value != nil && (k.Value.String() == "true") != want {
 						continue
 					}
+					// condition-level cut: this branch decides (possibly through a short-circuit phi) a condition whose outcome counts as passing
+					if len(condCut) > 0 {
+						rv, rp := c05StripNot(res)
+						if condCut[0][c05CondKey{rv, want == rp}] {
+							continue
+						}
+					}
 				}
 				if kind == "nil" {
 					st := ErrNilStatus(res, 0)
@@ -1689,6 +2045,16 @@ func c05ErrFlow(call ssa.CallInstruction, o ErrFlowOpts) ErrFlowResult {
 	}
 	ct := newCut().Edges(toleratedEdges(fn, aliases, o.Tolerated)...).Edges(nilE...)
 	ct.Instr(call.(ssa.Instruction))
+	tolC := c05TolConds(fn, aliases, o.Tolerated, 0)
+	for _, i := range Ifs(fn) {
+		cond, t, f := ifEdges(i)
+		if tolC[c05CondKey{cond, true}] {
+			ct.Edges(t)
+		}
+		if tolC[c05CondKey{cond, false}] {
+			ct.Edges(f)
+		}
+	}
 	for _, ne := range nonNilE {
 		bad := false
 		c05ReachF(ne.To, 0, ne.From, nil, ct, c05EdgeFacts(ne), func(rt *ssa.Return, pred *ssa.BasicBlock) {
@@ -1698,7 +2064,7 @@ func c05ErrFlow(call ssa.CallInstruction, o ErrFlowOpts) ErrFlowResult {
 				}
 				bad = true
 			}
-		})
+		}, tolC)
 		if bad {
 			return r
 		}
@@ -1733,6 +2099,22 @@ func c05FieldCarry(v ssa.Value, cur *c05Env) (ssa.Value, *c05Env, bool) {
 		}
 		base, at = args[idx], cur.Parent
 	}
+	// the struct variable itself captured by a closure: the free variable is its address
+	for i := 0; i < 3; i++ {
+		fv, isFV := strip(base).(*ssa.FreeVar)
+		if !isFV {
+			break
+		}
+		bs := freeVarBindings(fv)
+		owner := at
+		for owner != nil && owner.Fn != fv.Parent().Parent() {
+			owner = owner.Parent
+		}
+		if len(bs) != 1 || owner == nil {
+			return nil, nil, false
+		}
+		base, at = bs[0], owner
+	}
 	var lit *ssa.Alloc
 	for _, r := range Roots(base) {
 		a, isA := strip(r).(*ssa.Alloc)
@@ -1765,4 +2147,806 @@ func c05FieldCarry(v ssa.Value, cur *c05Env) (ssa.Value, *c05Env, bool) {
 		return nil, nil, false
 	}
 	return val, at, true
+}
+
+// c05CapturedValue: v is a load of a free variable of cur.Fn (never written by
+// closures) whose cell lives in an enclosing function on the chain and is
+// assigned exactly once there: the assigned value, in that function's node.
+func c05CapturedValue(v ssa.Value, cur *c05Env) (ssa.Value, *c05Env, bool) {
+	ld, ok := strip(v).(*ssa.UnOp)
+	if !ok || ld.Op != token.MUL {
+		return nil, nil, false
+	}
+	fv, ok := ld.X.(*ssa.FreeVar)
+	if !ok || fv.Parent() != cur.Fn || freeVarWritten(cur.Fn, fv) {
+		return nil, nil, false
+	}
+	bs := freeVarBindings(fv)
+	if len(bs) != 1 {
+		return nil, nil, false
+	}
+	owner := cur.Parent
+	for owner != nil && owner.Fn != cur.Fn.Parent() {
+		owner = owner.Parent
+	}
+	if owner == nil {
+		return nil, nil, false
+	}
+	switch b := bs[0].(type) {
+	case *ssa.Alloc:
+		if sv := c05SingleStoredValue(b); sv != nil {
+			return sv, owner, true
+		}
+	case *ssa.FreeVar:
+		return &ssa.UnOp{Op: token.MUL, X: b}, owner, true
+	}
+	return nil, nil, false
+}
+
+// ---------------------------------------------------------------- traversals: loops and range-over-func
+
+// c05Iter is one traversal statement `for ... := range X` of In.Fn in any of
+// its forms: an SSA loop over a map or a slice (range / index / 3-clause), or
+// a Go 1.23 range-over-func statement, whose body go/ssa turns into a
+// synthetic closure (Y) that is handed to the iterator function.
+type c05Iter struct {
+	In *c05Env
+	// SSA loop forms
+	Loop *Loop
+	Body Edge
+	next *ssa.Next
+	idx  map[ssa.Value]bool
+	// range-over-func form
+	Call ssa.CallInstruction // the call seq(body) in In.Fn
+	Y    *c05Env             // the body
+	Src  *c05Seq             // what the iterator yields (nil: unknown)
+	// what is traversed (SSA forms and standard producers): "map" | "slice" | "syncmap"
+	Kind   string
+	Coll   ssa.Value
+	CollAt *c05Env
+	roles  []string // range-over-func over a standard producer: "key"/"val" per body parameter
+	// a slice loop over slices.Collect / slices.Sorted… of a standard producer (`for _, k := range slices.Sorted(maps.Keys(m))`):
+	// Kind/Coll/CollAt describe m, the loop's elements play role viaRole of m, slice is the collected slice
+	viaRole string
+	slice   ssa.Value
+}
+
+// c05Seq describes an iterator value (iter.Seq / iter.Seq2).
+type c05Seq struct {
+	// a standard producer over a collection: maps.Keys/Values/All, slices.Values/All, (*sync.Map).Range
+	Kind   string
+	Coll   ssa.Value
+	CollAt *c05Env
+	Roles  []string
+	// an in-module iterator closure: its single yield site and the traversal (inside the closure) the site belongs to
+	Site   ssa.CallInstruction
+	SiteAt *c05Env
+	Inner  *c05Iter
+	Exact  bool // every completed iteration of Inner yields exactly once
+}
+
+var c05StdSeq = map[string][]string{
+	"maps.Keys": {"map", "key"}, "maps.Values": {"map", "val"}, "maps.All": {"map", "key", "val"},
+	"slices.Values": {"slice", "val"}, "slices.All": {"slice", "key", "val"},
+}
+
+const c05YieldSynthetic = "range-over-func yield"
+
+// c05SeqOf resolves an iterator value seen from at.
+func c05SeqOf(v ssa.Value, at *c05Env) *c05Seq {
+	if at.depth() > 9 {
+		return nil
+	}
+	w, wat := at.up(v)
+	switch x := strip(w).(type) {
+	case *ssa.Call:
+		if d, ok := c05StdSeq[CalleeName(x)]; ok && len(x.Call.Args) == 1 {
+			return &c05Seq{Kind: d[0], Coll: x.Call.Args[0], CollAt: wat, Roles: d[1:], Exact: true}
+		}
+		g := StaticCallee(x)
+		if g == nil || !inModule(g) || len(g.Blocks) == 0 {
+			return nil
+		}
+		for a := wat; a != nil; a = a.Parent {
+			if a.Fn == g {
+				return nil
+			}
+		}
+		var mc *ssa.MakeClosure
+		for _, r := range Returns(g) {
+			if !ReachableFromEntry(r) || len(r.Results) != 1 {
+				continue
+			}
+			for _, rv := range Roots(c05Unspill(r.Results[0])) {
+				m, ok := strip(rv).(*ssa.MakeClosure)
+				if !ok || (mc != nil && mc != m) {
+					return nil
+				}
+				mc = m
+			}
+		}
+		if mc == nil {
+			return nil
+		}
+		return c05SeqOfClosure(mc, &c05Env{Fn: g, Call: x, Parent: wat})
+	case *ssa.MakeClosure:
+		f := x.Fn.(*ssa.Function)
+		if strings.HasPrefix(f.Synthetic, "bound method wrapper") && fnFullName(f) == "(*sync.Map).Range" && len(x.Bindings) == 1 {
+			return &c05Seq{Kind: "syncmap", Coll: x.Bindings[0], CollAt: wat, Roles: []string{"key", "val"}, Exact: true}
+		}
+		if x.Parent() != wat.Fn {
+			return nil
+		}
+		return c05SeqOfClosure(x, wat)
+	}
+	return nil
+}
+
+// c05SeqOfClosure: the iterator closure mc created in at.Fn.
+func c05SeqOfClosure(mc *ssa.MakeClosure, at *c05Env) *c05Seq {
+	q := mc.Fn.(*ssa.Function)
+	if len(q.Params) != 1 || len(q.Blocks) == 0 {
+		return nil
+	}
+	y := q.Params[0]
+	if sg, ok := y.Type().Underlying().(*types.Signature); !ok || sg.Results().Len() != 1 {
+		return nil
+	}
+	qe := &c05Env{Fn: q, Parent: at}
+	iters := c05ItersIn(qe)
+	seq := &c05Seq{}
+	n := 0
+	bad := false
+	// uses of the yield function: calls in q itself, or in a range-over-func body of q that captured it
+	isY := func(v ssa.Value, e *c05Env) bool {
+		w, wat := e.up(v)
+		return wat.Fn == q && w == ssa.Value(y)
+	}
+	var scan func(e *c05Env, d int)
+	scan = func(e *c05Env, d int) {
+		AllInstrs(e.Fn, func(in ssa.Instruction) {
+			switch x := in.(type) {
+			case ssa.CallInstruction:
+				cc := x.Common()
+				if !cc.IsInvoke() && isY(cc.Value, e) {
+					if _, isCall := x.(*ssa.Call); !isCall {
+						bad = true
+					}
+					n++
+					seq.Site, seq.SiteAt = x, e
+				}
+			case *ssa.MakeClosure:
+				if d >= 2 {
+					return
+				}
+				ch := &c05Env{Fn: x.Fn.(*ssa.Function), Parent: e}
+				if e == qe {
+					for _, it := range iters {
+						if it.Y != nil && it.Y.Fn == ch.Fn {
+							ch = it.Y
+						}
+					}
+				}
+				scan(ch, d+1)
+			}
+		})
+	}
+	scan(qe, 0)
+	if n != 1 || bad {
+		return nil
+	}
+	site := seq.Site.(*ssa.Call)
+	switch {
+	case seq.SiteAt == qe:
+		// innermost SSA loop of q around the site
+		var best *c05Iter
+		for _, it := range iters {
+			if it.Loop != nil && it.Loop.Contains(site) && (best == nil || len(it.Loop.Blocks) < len(best.Loop.Blocks)) {
+				best = it
+			}
+		}
+		if best == nil {
+			return nil
+		}
+		for _, l := range Loops(q) {
+			if l.Contains(site) && len(l.Blocks) < len(best.Loop.Blocks) {
+				return nil
+			}
+		}
+		seq.Inner = best
+	case seq.SiteAt.Iter != nil && seq.SiteAt.Parent == qe:
+		for _, l := range Loops(seq.SiteAt.Fn) {
+			if l.Contains(site) {
+				return nil
+			}
+		}
+		seq.Inner = seq.SiteAt.Iter
+	default:
+		return nil
+	}
+	seq.Exact = !seq.Inner.SkipsCut(newCut().Instr(site))
+	return seq
+}
+
+// c05SliceLoopOf: l visits every element of a slice (`for range s`, `for i :=
+// range s`, `for i := 0; i < len(s); i++`): the slice, the values that index
+// the current element and the body's entry edge.
+func c05SliceLoopOf(l *Loop) (S ssa.Value, idx map[ssa.Value]bool, body Edge, ok bool) {
+	_, idx, body = c05SliceLoopL(l, func(v ssa.Value) bool { S = v; return true })
+	return S, idx, body, idx != nil
+}
+
+// c05ItersIn lists the traversal statements of e.Fn.
+func c05ItersIn(e *c05Env) []*c05Iter {
+	var out []*c05Iter
+	for _, l := range Loops(e.Fn) {
+		if ranged, next, body, _, ok := l.RangeMap(); ok {
+			kind := "map"
+			if _, isMap := ranged.Type().Underlying().(*types.Map); !isMap {
+				kind = "other"
+			}
+			out = append(out, &c05Iter{In: e, Loop: l, Body: body, next: next, Kind: kind, Coll: ranged, CollAt: e})
+			continue
+		}
+		if S, idx, body, ok := c05SliceLoopOf(l); ok {
+			it := &c05Iter{In: e, Loop: l, Body: body, idx: idx, Kind: "slice", Coll: S, CollAt: e, slice: S}
+			if e.depth() <= 9 {
+				if w, wat := e.up(S); wat != nil {
+					if call, isCall := strip(w).(*ssa.Call); isCall && len(call.Call.Args) >= 1 {
+						switch CalleeName(call) {
+						case "slices.Collect", "slices.Sorted", "slices.SortedFunc", "slices.SortedStableFunc":
+							if seq := c05SeqOf(call.Call.Args[0], wat); seq != nil && seq.Site == nil && len(seq.Roles) == 1 {
+								it.Kind, it.Coll, it.CollAt, it.viaRole = seq.Kind, seq.Coll, seq.CollAt, seq.Roles[0]
+							}
+						}
+					}
+				}
+			}
+			out = append(out, it)
+		}
+	}
+	if e.depth() > 9 {
+		return out
+	}
+	AllInstrs(e.Fn, func(in ssa.Instruction) {
+		call, ok := in.(*ssa.Call)
+		if !ok || call.Call.IsInvoke() || len(call.Call.Args) != 1 {
+			return
+		}
+		mc, ok := call.Call.Args[0].(*ssa.MakeClosure)
+		if !ok || mc.Fn.(*ssa.Function).Synthetic != c05YieldSynthetic {
+			return
+		}
+		it := &c05Iter{In: e, Call: call}
+		it.Y = &c05Env{Fn: mc.Fn.(*ssa.Function), Parent: e, Iter: it}
+		if it.Src = c05SeqOf(call.Call.Value, e); it.Src != nil && it.Src.Site == nil {
+			it.Kind, it.Coll, it.CollAt, it.roles = it.Src.Kind, it.Src.Coll, it.Src.CollAt, it.Src.Roles
+		}
+		out = append(out, it)
+	})
+	return out
+}
+
+// rotated: an SSA loop whose header is its body (range-over-int lowering): Body is the edge from the guard into the header.
+func (it *c05Iter) rotated() bool {
+	return it.Loop != nil && it.Body.To == it.Loop.Header && it.Body.From != nil && !it.Loop.Blocks[it.Body.From]
+}
+
+// Base: the traversal of an actual collection that feeds it (through chained in-module iterators); nil when unknown.
+func (it *c05Iter) Base() *c05Iter {
+	for i := 0; it != nil && i < 6; i++ {
+		if it.Loop != nil {
+			return it
+		}
+		if it.Src == nil {
+			return nil
+		}
+		if it.Src.Site == nil {
+			return it
+		}
+		it = it.Src.Inner
+	}
+	return nil
+}
+
+// Exact: each element of the base collection gives exactly one execution of the body.
+func (it *c05Iter) Exact() bool {
+	for i := 0; it != nil && i < 6; i++ {
+		if it.Loop != nil {
+			return true
+		}
+		if it.Src == nil || !it.Src.Exact {
+			return false
+		}
+		if it.Src.Site == nil {
+			return true
+		}
+		it = it.Src.Inner
+	}
+	return false
+}
+
+// IsElem: v, seen from at, is the current key (index) / value (element) of the base traversal of it.
+func (it *c05Iter) IsElem(v ssa.Value, at *c05Env, role string) bool {
+	b := it.Base()
+	if b == nil {
+		return false
+	}
+	w, wat := at.up(v)
+	switch {
+	case b.next != nil:
+		ex, ok := strip(w).(*ssa.Extract)
+		return ok && wat.Fn == b.In.Fn && ex.Tuple == ssa.Value(b.next) && ((role == "key" && ex.Index == 1) || (role == "val" && ex.Index == 2))
+	case b.Loop != nil:
+		if wat.Fn != b.In.Fn {
+			return false
+		}
+		if b.viaRole != "" {
+			if role != b.viaRole {
+				return false
+			}
+			role = "val"
+		}
+		if role == "key" {
+			return b.idx[strip(w)]
+		}
+		rs := Roots(c05Unspill(w))
+		for _, r := range rs {
+			ld, ok := strip(r).(*ssa.UnOp)
+			if !ok || ld.Op != token.MUL {
+				return false
+			}
+			ia, ok := ld.X.(*ssa.IndexAddr)
+			if !ok || !b.idx[ia.Index] || !(SameValue(ia.X, b.slice) || c05SamePlace(ia.X, b.slice)) {
+				return false
+			}
+		}
+		return len(rs) > 0
+	default:
+		if wat.Fn != b.Y.Fn {
+			return false
+		}
+		for i, p := range b.Y.Fn.Params {
+			if ssa.Value(p) == w && i < len(b.roles) && b.roles[i] == role {
+				return true
+			}
+		}
+		return false
+	}
+}
+
+// Entry: the instruction of In.Fn that every path running the traversal passes.
+func (it *c05Iter) Entry() ssa.Instruction {
+	if it.Loop != nil {
+		if it.rotated() {
+			return it.Body.From.Instrs[len(it.Body.From.Instrs)-1] // the guard before a rotated loop
+		}
+		return it.Loop.Header.Instrs[0]
+	}
+	return it.Call.(ssa.Instruction)
+}
+
+// BodyEnv: the node in whose function the body's instructions live.
+func (it *c05Iter) BodyEnv() *c05Env {
+	if it.Loop != nil {
+		return it.In
+	}
+	return it.Y
+}
+
+// Contains: instruction in of node e belongs to the body (helpers called from the body included).
+func (it *c05Iter) Contains(in ssa.Instruction, e *c05Env) bool {
+	if it.Loop != nil {
+		for a := e; a != nil; a = a.Parent {
+			if a.Fn == it.In.Fn {
+				if a == e {
+					return it.Loop.Contains(in)
+				}
+				return false
+			}
+			if a.Call != nil && a.Parent != nil && a.Parent.Fn == it.In.Fn {
+				return it.Loop.Contains(a.Call.(ssa.Instruction))
+			}
+		}
+		return false
+	}
+	for a := e; a != nil; a = a.Parent {
+		if a.Fn == it.Y.Fn {
+			return true
+		}
+	}
+	return false
+}
+
+// SkipsCut: some completed iteration of the body (one that goes on to the next
+// element) does not pass the cut, which is given for the body's function.
+func (it *c05Iter) SkipsCut(ct *cut) bool {
+	if it.Loop != nil {
+		if it.rotated() {
+			// the header is the body: an iteration runs from behind its first instruction round to it again
+			h := it.Loop.Header
+			return c05ReachF(h, 1, it.Body.From, h.Instrs[0], ct, c05NewFacts(), nil)
+		}
+		return c07IterSkips(it.Body, it.Loop.Header, ct)
+	}
+	fn := it.Y.Fn
+	for _, r := range Returns(fn) {
+		if len(r.Results) == 1 {
+			if k, isK := r.Results[0].(*ssa.Const); isK && k.Value != nil && !constant.BoolVal(k.Value) {
+				continue // break / return out of the loop: the iteration does not complete
+			}
+		}
+		if c05ReachF(fn.Blocks[0], 0, nil, r, ct, c05NewFacts(), nil) {
+			return true
+		}
+	}
+	return false
+}
+
+// Skips: some completed iteration does not pass sp.
+func (it *c05Iter) Skips(sp c05PassSpec) bool {
+	ct := c05PassCut(it.BodyEnv(), sp)
+	return it.SkipsCut(ct)
+}
+
+// c05YieldErrFlow: the error of `call`, made in the body of range-over-func
+// traversal it, reaches the caller of the enclosing function: on every path
+// from its non-nil edges the body stores it (or an error built from it) into a
+// result cell of the enclosing function and stops the traversal (returns
+// false), and the enclosing function returns that cell unmodified.
+func c05YieldErrFlow(call ssa.CallInstruction, it *c05Iter) ErrFlowResult {
+	fn := it.Y.Fn
+	ev := ErrOf(call)
+	if ev == nil {
+		return ErrFlowResult{Detail: "call has no error result", At: call.Pos()}
+	}
+	al := Aliases(ev)
+	_, ne, _ := NilTests(fn, al)
+	if len(ne) == 0 {
+		return ErrFlowResult{Detail: "the error of " + CalleeName(call) + " is not tested in the loop body", At: call.Pos()}
+	}
+	derived := func(v ssa.Value) bool {
+		for _, r := range Roots(v) {
+			if al[r] || al[strip(r)] {
+				continue
+			}
+			c2, ok := strip(r).(*ssa.Call)
+			if !ok {
+				return false
+			}
+			has := false
+			for _, a := range c2.Call.Args {
+				for _, x := range append(c05VariadicElems(a), a) {
+					if al[x] || al[strip(x)] {
+						has = true
+					}
+				}
+			}
+			if !has {
+				return false
+			}
+		}
+		return true
+	}
+	ct := newCut()
+	var cells []*ssa.Alloc
+	AllInstrs(fn, func(in ssa.Instruction) {
+		st, ok := in.(*ssa.Store)
+		if !ok || !derived(st.Val) {
+			return
+		}
+		fv, ok := st.Addr.(*ssa.FreeVar)
+		if !ok {
+			return
+		}
+		bs := freeVarBindings(fv)
+		if len(bs) != 1 {
+			return
+		}
+		a, ok := bs[0].(*ssa.Alloc)
+		if !ok || a.Parent() != it.In.Fn {
+			return
+		}
+		// the enclosing function returns the cell as it is on some path after the traversal
+		retOK := false
+		for _, r := range Returns(it.In.Fn) {
+			for _, res := range r.Results {
+				if ld, isL := res.(*ssa.UnOp); isL && ld.X == ssa.Value(a) {
+					stores := newCut()
+					for _, s2 := range storesTo(a) {
+						stores.Instr(s2)
+					}
+					ci := it.Call.(ssa.Instruction)
+					if reach(ci.Block(), instrIndex(ci)+1, r, stores) {
+						retOK = true
+					}
+				}
+			}
+		}
+		if retOK {
+			ct.Instr(st)
+			cells = append(cells, a)
+		}
+	})
+	for _, e := range ne {
+		bad := false
+		c05ReachF(e.To, 0, e.From, nil, ct, c05EdgeFacts(e), func(r *ssa.Return, _ *ssa.BasicBlock) { bad = true })
+		if bad {
+			return ErrFlowResult{Detail: "a failure of " + CalleeName(call) + " in the loop body can end the iteration without handing the error to the enclosing function's result", At: call.Pos()}
+		}
+		// after recording the error the traversal stops
+		for _, r := range Returns(fn) {
+			if k, isK := r.Results[0].(*ssa.Const); isK && k.Value != nil && !constant.BoolVal(k.Value) {
+				continue
+			}
+			if c05ReachF(e.To, 0, e.From, r, newCut(), c05EdgeFacts(e), nil) {
+				return ErrFlowResult{Detail: "after a failure of " + CalleeName(call) + " the traversal continues", At: call.Pos()}
+			}
+		}
+	}
+	return ErrFlowResult{OK: true, How: "stored into the enclosing function's result and the traversal stops"}
+}
+
+// c05YieldReturnNonNil: ret returns the cell loaded by ld, no store of fn
+// itself reaches that load, and the value comes from a `return x` statement
+// inside the body of a range-over-func loop: go/ssa lowers that to `*cell = x;
+// *jump = k; return false` in the synthetic body closure and, after the
+// iterator call, `if *jump == k { return *cell }` in fn.  True when every such
+// x is known non-nil where it is stored.
+func c05YieldReturnNonNil(fn *ssa.Function, ld *ssa.UnOp, ret *ssa.Return) bool {
+	cell, ok := ld.X.(*ssa.Alloc)
+	if !ok {
+		return false
+	}
+	// the guard `jump == k` that dominates the return
+	var jump *ssa.Alloc
+	var k int64
+	for b := ret.Block(); b != nil && jump == nil; b = b.Idom() {
+		d := b.Idom()
+		if d == nil || len(d.Instrs) == 0 {
+			break
+		}
+		ifi, isIf := d.Instrs[len(d.Instrs)-1].(*ssa.If)
+		if !isIf || len(d.Succs) != 2 || !(d.Succs[0] == b || d.Succs[0].Dominates(b)) || d.Succs[1] == b || d.Succs[1].Dominates(b) {
+			continue
+		}
+		bo, isBO := ifi.Cond.(*ssa.BinOp)
+		if !isBO || bo.Op != token.EQL {
+			continue
+		}
+		n, isK := constInt(bo.Y)
+		jl, isL := bo.X.(*ssa.UnOp)
+		if !isK || !isL || n <= 0 {
+			continue
+		}
+		if a, isA := jl.X.(*ssa.Alloc); isA && jl.Op == token.MUL {
+			jump, k = a, n
+		}
+	}
+	if jump == nil {
+		return false
+	}
+	found := 0
+	for _, r := range *cell.Referrers() {
+		mc, isMC := r.(*ssa.MakeClosure)
+		if !isMC {
+			continue
+		}
+		y := mc.Fn.(*ssa.Function)
+		if y.Synthetic != c05YieldSynthetic {
+			return false
+		}
+		var fvCell, fvJump *ssa.FreeVar
+		for i, b := range mc.Bindings {
+			if b == ssa.Value(cell) {
+				fvCell = y.FreeVars[i]
+			}
+			if b == ssa.Value(jump) {
+				fvJump = y.FreeVars[i]
+			}
+		}
+		if fvCell == nil || fvJump == nil {
+			continue
+		}
+		for _, b := range y.Blocks {
+			var last *ssa.Store
+			for _, in := range b.Instrs {
+				st, isSt := in.(*ssa.Store)
+				if !isSt {
+					continue
+				}
+				if st.Addr == ssa.Value(fvCell) {
+					last = st
+				}
+				if st.Addr == ssa.Value(fvJump) {
+					if n, isK := constInt(st.Val); isK && n == k {
+						if last == nil {
+							return false
+						}
+						found++
+						if ErrNilStatus(last.Val, 0) == NonNil {
+							continue
+						}
+						_, nonNilE, _ := NilTests(y, Aliases(last.Val))
+						if len(nonNilE) == 0 || !MustPass(last, newCut().Edges(nonNilE...)) {
+							return false
+						}
+					}
+				}
+			}
+		}
+	}
+	return found > 0
+}
+
+// c05PreservesNonNil: v is the error result of a call to an in-module helper
+// that receives one of the values `olds` (loads of the current error) and
+// whose every error result is that parameter itself, a value known non-nil, or
+// a value returned on the non-nil side of its own test: a non-nil error stays
+// non-nil across `err = helper(..., err)`.
+func c05PreservesNonNil(v ssa.Value, olds map[ssa.Value]bool) bool {
+	v = strip(v)
+	if ex, ok := v.(*ssa.Extract); ok {
+		if c, isC := ex.Tuple.(*ssa.Call); isC && ErrResultIndex(c.Call.Signature()) == ex.Index {
+			v = c
+		}
+	}
+	call, ok := v.(*ssa.Call)
+	if !ok {
+		return false
+	}
+	// errors.Join(old, more...) / cmp.Or(old, other): non-nil as soon as one argument is
+	if n := CalleeName(call); n == "errors.Join" || n == "cmp.Or" {
+		for _, a := range call.Call.Args {
+			for _, x := range append(c05VariadicElems(a), a) {
+				if olds[x] || olds[strip(x)] {
+					return true
+				}
+			}
+		}
+		return false
+	}
+	h := StaticCallee(call)
+	if h == nil || !inModule(h) || len(h.Blocks) == 0 || h.Recover != nil {
+		return false
+	}
+	idx := ErrResultIndex(h.Signature)
+	if idx < 0 {
+		return false
+	}
+	var prm *ssa.Parameter
+	for i, a := range call.Call.Args {
+		if (olds[a] || olds[strip(a)]) && i < len(h.Params) {
+			prm = h.Params[i]
+		}
+	}
+	if prm == nil {
+		return false
+	}
+	for _, a := range RetAtoms(h, idx) {
+		if strip(a.Val) == ssa.Value(prm) || c05ParamOf(a.Val) == prm || ErrNilStatus(a.Val, 0) == NonNil {
+			continue
+		}
+		if _, isConst := a.Val.(*ssa.Const); !isConst {
+			if _, isZero := a.Val.(zeroMarker); !isZero {
+				_, nonNilE, _ := NilTests(h, Aliases(a.Val))
+				if len(nonNilE) > 0 && c05AtomMustPass(a, newCut().Edges(nonNilE...)) {
+					continue
+				}
+			}
+		}
+		return false
+	}
+	return true
+}
+
+// c05TolConds: the boolean values of fn whose being true (false) means "the
+// error (aliases) is one of the tolerated sentinels": errors.Is(err, S), err
+// == S, err != S, and calls of in-module boolean helpers that return true only
+// in that case (`func isBenign(err error) bool { return errors.Is(err, A) ||
+// errors.Is(err, B) }`).
+func c05TolConds(fn *ssa.Function, aliases map[ssa.Value]bool, tolerated []string, depth int) map[c05CondKey]bool {
+	out := map[c05CondKey]bool{}
+	if len(tolerated) == 0 {
+		return out
+	}
+	tol := map[string]bool{}
+	for _, t := range tolerated {
+		tol[t] = true
+	}
+	isAl := func(v ssa.Value) bool { return aliases[v] || aliases[strip(v)] }
+	AllInstrs(fn, func(in ssa.Instruction) {
+		switch c := in.(type) {
+		case *ssa.BinOp:
+			if c.Op != token.EQL && c.Op != token.NEQ {
+				return
+			}
+			var other ssa.Value
+			if isAl(c.X) {
+				other = c.Y
+			} else if isAl(c.Y) {
+				other = c.X
+			} else {
+				return
+			}
+			if tol[sentinelName(other)] {
+				out[c05CondKey{c, c.Op == token.EQL}] = true
+			}
+		case *ssa.Call:
+			if CalleeName(c) == "errors.Is" && len(c.Call.Args) == 2 && isAl(c.Call.Args[0]) && tol[sentinelName(c.Call.Args[1])] {
+				out[c05CondKey{c, true}] = true
+				return
+			}
+			h := StaticCallee(c)
+			if h == nil || !inModule(h) || len(h.Blocks) == 0 || depth >= 2 || h.Signature.Results().Len() != 1 ||
+				!types.Identical(h.Signature.Results().At(0).Type(), types.Typ[types.Bool]) {
+				return
+			}
+			var prm *ssa.Parameter
+			for i, a := range c.Call.Args {
+				if isAl(a) && i < len(h.Params) {
+					prm = h.Params[i]
+				}
+			}
+			if prm == nil {
+				return
+			}
+			sub := c05TolConds(h, Aliases(prm), tolerated, depth+1)
+			var subE []Edge
+			for _, i := range Ifs(h) {
+				cond, t, f := ifEdges(i)
+				if sub[c05CondKey{cond, true}] {
+					subE = append(subE, t)
+				}
+				if sub[c05CondKey{cond, false}] {
+					subE = append(subE, f)
+				}
+			}
+			// true => tolerated: every atom of the result is false, is itself such a condition, or is `true` behind one
+			good, n := true, 0
+			for _, a := range RetAtoms(h, 0) {
+				n++
+				v, pol := c05StripNot(a.Val)
+				if k, isK := v.(*ssa.Const); isK && k.Value != nil {
+					if (k.Value.String() == "true") != pol {
+						continue // false
+					}
+					if len(subE) > 0 && c05AtomMustPass(a, newCut().Edges(subE...)) {
+						continue
+					}
+					good = false
+					continue
+				}
+				if !sub[c05CondKey{v, pol}] {
+					good = false
+				}
+			}
+			if good && n > 0 {
+				out[c05CondKey{c, true}] = true
+			}
+		}
+	})
+	return out
+}
+
+// c05FuncsOfPkg: Prog.FuncsOfPkg plus the bodies of range-over-func
+// statements nested in those functions.  go/ssa turns such a body into a
+// synthetic closure, and the shared enumeration skips synthetic functions, so
+// without this the code inside `for x := range seq { ... }` would be invisible
+// to every inventory.
+func c05FuncsOfPkg(p *Prog, rel string) []*ssa.Function {
+	out := p.FuncsOfPkg(rel)
+	seen := map[*ssa.Function]bool{}
+	for _, f := range out {
+		seen[f] = true
+	}
+	for i := 0; i < len(out); i++ {
+		for _, a := range out[i].AnonFuncs {
+			if a.Synthetic == c05YieldSynthetic && !seen[a] && len(a.Blocks) > 0 {
+				seen[a] = true
+				out = append(out, a)
+			}
+		}
+	}
+	return out
 }
